@@ -445,6 +445,26 @@ fn status_guarded(b: &Board) -> Result<refmodel::Status, String> {
 }
 impl Monitor for C12 {
     fn state(&self, v: &View, t: &mut Tally, s: &Sink) {
+        // coverage bookkeeping: states whose ONLY legal moves are of one special kind (a status
+        // shortcut that forgets one generator shows up exactly there)
+        if !v.ref_moves.is_empty() {
+            let pinned = v.pos.pinned();
+            if v.ref_moves.iter().all(|m| v.pos.is_castle(*m)) {
+                t.hit("only-legal-moves: castling");
+            } else if v.ref_moves.iter().all(|m| v.pos.is_ep_capture(*m)) {
+                t.hit("only-legal-moves: en passant");
+            } else if v.ref_moves.iter().all(|m| m.promo.is_some()) {
+                t.hit("only-legal-moves: promotions");
+            } else if v.ref_moves.iter().all(|m| pinned.contains(&m.from)) {
+                t.hit("only-legal-moves: pinned pieces");
+            } else if v.ref_moves.iter().all(|m| matches!(v.pos.sq[m.from as usize], Some((Kind::K, _)))) {
+                t.hit("only-legal-moves: king");
+            } else if v.ref_moves.iter().all(|m| matches!(v.pos.sq[m.from as usize], Some((Kind::P, _)))) {
+                t.hit("only-legal-moves: pawns");
+            } else if v.ref_moves.iter().all(|m| matches!(v.pos.sq[m.from as usize], Some((Kind::N, _)))) {
+                t.hit("only-legal-moves: knights");
+            }
+        }
         let mut variants: Vec<(String, Board, Pos)> = vec![("as reached".into(), v.board.clone(), v.pos.clone())];
         for hm in [0u8, 99, 100] {
             if hm == v.pos.hm {
@@ -674,8 +694,20 @@ pub fn run(run: &mut Run) -> Result<(), String> {
                 plan.raws.push((Box::new(Castle { extra: 1 }), b(0, 0)));
                 plan.raws.push((Box::new(EpUniverse::reduced()), b(0, 0)));
                 plan.raws.push((Box::new(Checks { n: 2 }), b(0, 0)));
+                // boards with rooks on both sides of both kings, all 9^4 right assignments
+                let rc: Vec<Pos> = ["r3k2r/8/8/8/8/8/8/R3K2R w - - 0 1", "1r2k1r1/8/8/8/8/8/8/1R2K1R1 b - - 0 1", "rr2k1rr/8/8/8/8/8/8/RR2K1RR w - - 0 1", KIWIPETE, "r3k2r/8/8/8/8/8/4K3/R6R w - - 0 1"]
+                    .iter()
+                    .filter_map(|f| refmodel::text::decode_fen(&f.replace(" KQkq ", " - "), refmodel::text::Notation::Either).ok())
+                    .map(|mut p| {
+                        p.rights = [[None; 2]; 2];
+                        p
+                    })
+                    .collect();
+                plan.raws.push((Box::new(RightsProduct { corpus: rc }), b(0, 0)));
                 plan.raws.push((Box::new(Edit { corpus, two_edits_for_first: 0 }), b(0, 0)));
             } else {
+                let rc: Vec<Pos> = corpus.iter().step_by(9).cloned().collect();
+                plan.raws.push((Box::new(RightsProduct { corpus: rc }), b(0, 0)));
                 plan.raws.push((Box::new(ThreeMen { bk: None }), b(0, 0)));
                 plan.raws.push((Box::new(FourMen { kings: None, with_flags: false }), b(0, 0)));
                 plan.raws.push((Box::new(Castle { extra: 2 }), b(0, 0)));
@@ -704,6 +736,7 @@ pub fn run(run: &mut Run) -> Result<(), String> {
                     plan.raws.push((Box::new(EpUniverse::own_sliders()), b(1, 0)));
                 }
                 if prop == "C12" {
+                    plan.raws.push((Box::new(CastleBox { max_items: 4 }), b(0, 0)));
                     plan.raws.push((Box::new(FourMen { kings: Some(cornered_king_placements()), with_flags: false }), b(0, 0)));
                     plan.raws.push((Box::new(DoubleCheck { kings: vec![4, 0], own_kinds: vec![Kind::P, Kind::N] }), b(0, 0)));
                 }
@@ -720,10 +753,11 @@ pub fn run(run: &mut Run) -> Result<(), String> {
                 plan.clock = Some(b(3, 2));
                 plan.dfrc = Some((0..960, 1, b(0, 0)));
                 plan.lines = Some(b(3, 2));
+                plan.raws.push((Box::new(CastleBox { max_items: 4 }), b(if prop == "C12" { 1 } else { 0 }, 0)));
                 plan.raws.push((Box::new(TwoLines { enemy_kings: vec![35, 60, 63] }), b(1, 0)));
                 plan.raws.push((Box::new(DoubleCheck { kings: vec![4, 27, 0, 60], own_kinds: NONKING.to_vec() }), b(0, 0)));
                 plan.raws.push((Box::new(ThreeMen { bk: None }), b(1, 1)));
-                plan.raws.push((Box::new(FourMen { kings: if prop == "C10" { Some(six_king_placements()) } else { None }, with_flags: false }), b(0, 0)));
+                plan.raws.push((Box::new(FourMen { kings: if prop == "C10" { Some(six_king_placements()) } else if prop == "C12" { Some(king_pairs_stride(2)) } else { None }, with_flags: false }), b(0, 0)));
                 plan.raws.push((Box::new(Castle { extra: 2 }), b(if prop == "C10" { 1 } else { 0 }, 1)));
                 plan.raws.push((Box::new(EpUniverse::full()), b(1, 1)));
                 plan.raws.push((Box::new(Checks { n: 3 }), b(0, 0)));
@@ -751,8 +785,12 @@ pub fn run(run: &mut Run) -> Result<(), String> {
                 plan.mid = Some(b(2, 1));
                 plan.r960 = Some(b(1, 0));
                 plan.lines = Some(b(2, 1));
-                plan.raws.push((Box::new(ThreeMen { bk: Some(sub8.clone()) }), b(0, 0)));
+                plan.clock = Some(b(1, 0));
+                plan.raws.push((Box::new(ThreeMen { bk: None }), b(0, 0)));
+                plan.raws.push((Box::new(FourMen { kings: Some(six_king_placements()), with_flags: true }), b(0, 0)));
                 plan.raws.push((Box::new(EpUniverse::full()), b(0, 0)));
+                plan.raws.push((Box::new(EpExposure), b(0, 0)));
+                plan.raws.push((Box::new(EpUniverse::own_sliders()), b(1, 0)));
                 plan.raws.push((Box::new(Castle { extra: 1 }), b(0, 0)));
             }
             run.rule = "for every visited state a cluster of variants built through the library (en-passant file none / each accepted file, two clock pairs, each single right removed, three successors, null-move successor): same_position on all ordered pairs vs FIDE identity by the reference model, plus reflexivity / symmetry / transitivity of the observed answers".into();
